@@ -93,7 +93,7 @@ func famC10(g *Gen, o *Out, n int, thorough bool) {
 		if err == nil {
 			srcs = append(srcs, wrapped.Bytes())
 		}
-		dp := []int{0, 1, 9, 200}[g.pick(4)]
+		dp := []int{0, 1, 9, 200, 4097}[g.pick(5)]
 		srcs = append(srcs, indexlessV2(x, dp))
 		srcs = append(srcs, writeAll(roots, bs, false, carv2.UseDataPadding(uint64(dp)), carv2.UseIndexPadding(uint64(g.pick(40)))))
 		for si, src := range srcs {
